@@ -139,7 +139,8 @@ def plan(tier, seed):
                     full = {"dict": tuple(DICT_OPS), "list": tuple(LIST_OPS)}
                     for topo in topos_all:
                         programs1_noreduce += pairs_for(c, topo, full)
-                        programs2 += pairs_for(c, topo, CORE3)
+                        if topo in ("same", "two-objects", "root+child"):
+                            programs2 += pairs_for(c, topo, CORE3)
                     for topo in ("same", "two-objects", "root+child"):
                         k = env.kind_of(c)
                         _, _, _, kinds = topologies(k)[topo]
@@ -166,7 +167,7 @@ def plan(tier, seed):
 
     chunk(programs1, 6, bound=1, reduction=True)
     chunk(programs1_noreduce, 4, bound=1, reduction=False)
-    chunk(programs2, 1, bound=2, reduction=True, max_executions=150000)
+    chunk(programs2, 1, bound=2, reduction=True, max_executions=60000)
     chunk(programs_multi, 3, bound=1, reduction=True)
     return tasks
 
